@@ -612,6 +612,132 @@ func concurrent(r *hx.Run, q *ctrl.Session, rnd *hx.Rand) {
 	}
 }
 
+var stateNames = []string{"a", "b", "rhel_containerscanner", "rpm", "os-release", "ab", "c", "zz", "a1", "m"}
+var stateVers = []string{"1", "2", "v1", "0.1.0", "10"}
+
+// genBigConfig draws 13..40 scanners of the four kinds over 1..5 ecosystems;
+// the few names make many same-name groups across kinds; sometimes a (kind,
+// name) is listed again by another ecosystem, with the same or another version
+// (EcosystemsToScanners keeps the first).
+func genBigConfig(rnd *hx.Rand) ctrl.Config {
+	n := 13 + rnd.Intn(28)
+	necos := 1 + rnd.Intn(5)
+	var cfg ctrl.Config
+	seen := map[string]bool{}
+	for tries := 0; len(cfg) < n && tries < 400; tries++ {
+		s := ctrl.ScannerSpec{Eco: rnd.Intn(necos), Kind: "pdrf"[rnd.Intn(4)], Name: stateNames[rnd.Intn(len(stateNames))], Version: stateVers[rnd.Intn(len(stateVers))]}
+		k := string(s.Kind) + "/" + s.Name
+		if seen[k] && !rnd.Chance(1, 8) {
+			continue
+		}
+		seen[k] = true
+		cfg = append(cfg, s)
+	}
+	return cfg
+}
+
+func permuted(rnd *hx.Rand, cfg ctrl.Config, necos int) ctrl.Config {
+	cp := append(ctrl.Config(nil), cfg...)
+	for i := len(cp) - 1; i > 0; i-- {
+		j := rnd.Intn(i + 1)
+		cp[i], cp[j] = cp[j], cp[i]
+	}
+	// the ecosystems are listed in another order too
+	perm := make([]int, necos)
+	for i := range perm {
+		perm[i] = i
+	}
+	for i := necos - 1; i > 0; i-- {
+		j := rnd.Intn(i + 1)
+		perm[i], perm[j] = perm[j], perm[i]
+	}
+	for i := range cp {
+		cp[i].Eco = perm[cp[i].Eco]
+	}
+	return cp
+}
+
+// states evaluates the state token of large configurations: each under several
+// permutations (of the scanners inside the ecosystems and of the ecosystems)
+// and after changing one name / kind / version; for every two evaluations of a
+// group: same token <=> same set of (kind, name, version) that
+// EcosystemsToScanners keeps.
+func (h *hist) states(rnd *hx.Rand) {
+	h.reset()
+	base := genBigConfig(rnd)
+	necos := 0
+	for _, s := range base {
+		necos = max(necos, s.Eco+1)
+	}
+	var cfgs []ctrl.Config
+	var toks []string
+	eval := func(cfg ctrl.Config) {
+		out := h.s.State(cfg)
+		cfgs, toks = append(cfgs, cfg), append(toks, out)
+		if !strings.HasPrefix(out, "tok ") {
+			h.r.Fail("", "libindex.New failed on a configuration of stub scanners: state "+cfg.String()+" => "+out)
+		}
+	}
+	eval(base)
+	for i := 0; i < 4; i++ {
+		eval(permuted(rnd, base, necos))
+	}
+	for i := 0; i < 3; i++ {
+		m := append(ctrl.Config(nil), base...)
+		j := rnd.Intn(len(m))
+		switch rnd.Intn(3) {
+		case 0:
+			m[j].Version += "x"
+		case 1:
+			m[j].Name = stateNames[rnd.Intn(len(stateNames))]
+		default:
+			m[j].Kind = "pdrf"[rnd.Intn(4)]
+		}
+		eval(m)
+		eval(permuted(rnd, m, necos))
+	}
+	n := len(h.s.W.Tokens) - len(toks)
+	for i := range cfgs {
+		for j := i + 1; j < len(cfgs); j++ {
+			sameTok := h.s.W.Tokens[n+i] == h.s.W.Tokens[n+j]
+			sameSet := keySet(cfgs[i]) == keySet(cfgs[j])
+			h.r.Case(fmt.Sprintf("state-token %s | %s", cfgs[i], cfgs[j]), true)
+			if sameSet {
+				h.r.Count("state.same-set")
+			} else {
+				h.r.Count("state.different-set")
+			}
+			if sameTok != sameSet {
+				h.r.Fail("", fmt.Sprintf("state token: same-token=%v but same-scanner-set=%v for configurations [%s] and [%s]", sameTok, sameSet, cfgs[i], cfgs[j]))
+			}
+		}
+	}
+}
+
+// realStates: the ecosystems libindex.New uses by default, listed in several
+// orders: one token.
+func (h *hist) realStates(rnd *hx.Rand) {
+	h.reset()
+	first := h.s.StateOfEcosystems(ctrl.DefaultEcosystems(nil))
+	if !strings.HasPrefix(first, "tok ") {
+		h.r.Fail("", "libindex.New failed on its default ecosystems: "+first)
+		return
+	}
+	for i := 0; i < 8; i++ {
+		perm := []int{0, 1, 2, 3, 4, 5, 6, 7, 8}
+		for k := len(perm) - 1; k > 0; k-- {
+			j := rnd.Intn(k + 1)
+			perm[k], perm[j] = perm[j], perm[k]
+		}
+		out := h.s.StateOfEcosystems(ctrl.DefaultEcosystems(perm))
+		h.r.Case(fmt.Sprintf("default ecosystems in order %v", perm), true)
+		if out != first {
+			cfg, _ := ctrl.SpecOfEcosystems(ctrl.DefaultEcosystems(perm))
+			h.r.Fail("", fmt.Sprintf("state token depends on the order of the ecosystems: libindex's default ecosystems in order %v (scanners %s) give another State() than in the default order", perm, cfg))
+		}
+	}
+}
+
 // knownMore replays the witness of finding unconfigured-scanner-marked and the
 // by-design exception (result.Do accepts a scanner's *net.AddrError).
 func (h *hist) knownMore() {
@@ -661,6 +787,11 @@ func Run(cfg hx.Config) error {
 	h.s.ReplayCorpus(cfg.Corpus)
 	h.known()
 	h.knownMore()
+	h.realStates(rnd.Fork())
+	srnd := rnd.Fork()
+	for i, n := 0, cfg.N(60, 600); i < n && !r.Stop(); i++ {
+		h.states(srnd)
+	}
 
 	// the same histories with LayerScanConcurrency = 3, the scanner goroutines
 	// stepped by the seeded scheduler (every Index is a `pindex` line)
